@@ -306,6 +306,7 @@ def _templates(model, rep):
         bad = None
         area = Fraction(0)
         edges = []
+        cells_v = []
         for ci, c in enumerate(children):
             vs = []
             for r in c.rows:
@@ -332,6 +333,7 @@ def _templates(model, rep):
                 bad = f"child {ci} leaves the parent"
                 break
             area += a
+            cells_v.append(vs)
             edges += [frozenset((vs[i], vs[j]))
                       for i, j in ((0, 1), (1, 2), (0, 2))]
         want_n = {(0, 0, 0): 1, (0, 0, 1): 2, (0, 1, 1): 3, (1, 0, 1): 3,
@@ -340,6 +342,11 @@ def _templates(model, rep):
             bad = f"{len(children)} children for marking pattern {pat}"
         if bad is None and area != Fraction(1, 2):
             bad = f"children's areas add up to {area}, not 1/2"
+        if bad is None:
+            from ..refcell import first_overlap
+            ov = first_overlap(cells_v)
+            if ov:
+                bad = f"children {ov[0]} and {ov[1]} overlap"
         if bad is None:
             for k, f in enumerate(rd.facets):
                 a, b = (tuple(rd.p[v]) for v in f)
